@@ -100,7 +100,48 @@ func cli(t *T) {
 			t.Fail("C07/cli/reformat-ach/text-differs/stored-validate-opts", "achcli -reformat ach prints a different NACHA text than the library writes for the same file (stored validateOpts not honoured?)",
 				FileInput(f), out.String(), want.String())
 		}
+		// the other direction of the tool: -reformat json must print a JSON that still is the same file (its
+		// validateOpts included): decoded by the library it writes the same text
+		t.Case(gen.Describe(f)+" "+optsKey(opts), "cli/reformat-json", true)
+		cmd2 := exec.Command(bin, "-reformat", "json", path)
+		var out2, errb bytes.Buffer
+		cmd2.Stdout = &out2
+		cmd2.Stderr = &errb
+		done2 := make(chan error, 1)
+		go func() { done2 <- cmd2.Run() }()
+		select {
+		case err = <-done2:
+		case <-time.After(20 * time.Second):
+			cmd2.Process.Kill()
+			t.Fail("C07/cli/reformat-json/timeout", "achcli -reformat json did not finish", FileInput(f), "timeout", "JSON")
+			continue
+		}
+		if err != nil {
+			t.Fail("C07/cli/reformat-json/error", "achcli -reformat json failed on a JSON file the library decodes", FileInput(f), out2.String()+errb.String(), "exit 0")
+			continue
+		}
+		g2, err := ach.FileFromJSON(bytes.TrimSpace(out2.Bytes()))
+		if err != nil || g2 == nil {
+			t.Fail("C07/cli/reformat-json/output-does-not-decode", "the JSON achcli -reformat json prints does not decode", FileInput(f), fmtErr(err)+"\n"+clipStr(out2.String(), 3000), "a file")
+			continue
+		}
+		var got2 bytes.Buffer
+		if err := ach.NewWriter(&got2).Write(g2); err != nil {
+			t.Fail("C07/cli/reformat-json/output-does-not-write", "the file decoded from achcli -reformat json output cannot be written", FileInput(f), err.Error(), "NACHA text")
+			continue
+		}
+		if !bytes.Equal(got2.Bytes(), want.Bytes()) {
+			t.Fail("C07/cli/reformat-json/text-differs/stored-validate-opts", "the JSON printed by achcli -reformat json decodes to a file with a different NACHA text (validateOpts lost?)",
+				FileInput(f), got2.String(), want.String())
+		}
 	}
+}
+
+func fmtErr(err error) string {
+	if err == nil {
+		return "<nil>"
+	}
+	return err.Error()
 }
 
 func optsKey(o *ach.ValidateOpts) string {
